@@ -230,7 +230,10 @@ def build(fam, seq, placement="root", bad=None, bad_at=None, constant=False, und
         if tkw and "[" in tkw:
             tkw, tdims = tkw[:tkw.index("[")], tkw[tkw.index("["):]
         mods.insert(bad_at, dict(k="mod", d=md, name=mname, type=tkw, dims=tdims, lit=L, unit=bu))
-    if undefined:
+    if undefined == "suffix":
+        # the node is g.a; an untyped assignment to a root-level `a` names an undefined node
+        mods.insert(bad_at, dict(k="mod", d=0, name="a", type=None, dims=None, lit=G.lit("3", 3), unit=None))
+    elif undefined:
         mods.insert(bad_at, dict(k="mod", d=md, name=("g.b" if placement in ("dotted", "chain") else "b"), type=None, dims=None,
                                  lit=G.lit("3", 3), unit=None))
     if placement == "group":
@@ -332,11 +335,15 @@ def run_case(desc, sh=None, seen=None):
         if got[0] == "ok":
             rec = failure(sub, case, "parse() fails: " + reject, G.observed_view(got[1]), tags=tags,
                           behaviour="accepted")
+        elif got[1] == "EnvironmentUnreadable":
+            # the statement demands that parse() itself fails; here it returned an (unusable) environment
+            rec = failure(sub, case, "parse() fails: " + reject, list(got), tags=tags,
+                          behaviour="accepted-environment-unreadable")
         elif got[1] == "CaseTimeout":
             rec = failure(sub, case, "parse() fails: " + reject, list(got), tags=tags, behaviour="timeout")
     else:
         if got[0] == "err":
-            rec = failure(sub, case, G.expected_view(exp), list(got), tags=tags, behaviour="raises:" + got[1])
+            rec = failure(sub, case, G.expected_view(exp), list(got), tags=tags, behaviour=G.error_class(got))
         else:
             diff = G.compare(exp, got[1])
             if diff == "value-differs":
@@ -431,8 +438,13 @@ def _cases(tier, seed, only=None):
                 yield fi, dict(sub="negative", fam=F, seq=[], placement=pl)          # declared, never assigned
         for pl in ("root", "dotted", "chain"):
             for seq, at in ctx[:3]:
+                if pl == "chain" and fam[3] == "decl" and (len(seq) < 1 or at == 0):
+                    continue                      # the first parse() of the chain needs the first modification
                 yield fi, dict(sub="negative", fam=F, seq=[list(s) for s in seq], placement=pl, undefined=True,
                                bad_at=at)
+                if pl != "root":
+                    yield fi, dict(sub="negative", fam=F, seq=[list(s) for s in seq], placement=pl,
+                                   undefined="suffix", bad_at=at)
 
 
 def _family_size(tier, seed, fi):
